@@ -62,6 +62,8 @@ impl passkey_authenticator::UserValidationMethod for SharedUv {
 pub trait Inner: CredentialStore<PasskeyItem = Passkey> + Send + Sync {
     fn all(&self) -> Vec<Passkey>;
     fn put(&mut self, p: Passkey);
+    /// shared lock wrappers: take the lock exclusively, as another user of the same store would; `None` for stores that are not shared
+    fn hold(&self) -> Option<Box<dyn std::any::Any>> { None }
 }
 impl Inner for MemoryStore {
     fn all(&self) -> Vec<Passkey> { self.values().cloned().collect() }
@@ -76,13 +78,15 @@ impl Inner for RefStore {
     fn put(&mut self, p: Passkey) { self.items.push(p); }
 }
 // the library's four lock wrappers, around any store of the harness
-impl<S: Inner + Clone> Inner for Arc<tokio::sync::Mutex<S>> {
+impl<S: Inner + Clone + 'static> Inner for Arc<tokio::sync::Mutex<S>> {
     fn all(&self) -> Vec<Passkey> { self.try_lock().unwrap().all() }
     fn put(&mut self, p: Passkey) { self.try_lock().unwrap().put(p); }
+    fn hold(&self) -> Option<Box<dyn std::any::Any>> { self.clone().try_lock_owned().ok().map(|g| Box::new(g) as Box<dyn std::any::Any>) }
 }
-impl<S: Inner + Clone> Inner for Arc<tokio::sync::RwLock<S>> {
+impl<S: Inner + Clone + 'static> Inner for Arc<tokio::sync::RwLock<S>> {
     fn all(&self) -> Vec<Passkey> { self.try_read().unwrap().all() }
     fn put(&mut self, p: Passkey) { self.try_write().unwrap().put(p); }
+    fn hold(&self) -> Option<Box<dyn std::any::Any>> { self.clone().try_write_owned().ok().map(|g| Box::new(g) as Box<dyn std::any::Any>) }
 }
 impl<S: Inner + Clone> Inner for tokio::sync::Mutex<S> {
     fn all(&self) -> Vec<Passkey> { self.try_lock().unwrap().all() }
@@ -226,7 +230,9 @@ pub static ANNOUNCE: std::sync::atomic::AtomicBool = std::sync::atomic::AtomicBo
 fn via_trait() -> bool { VIA_TRAIT.load(std::sync::atomic::Ordering::Relaxed) }
 fn announce(op: &str) { if ANNOUNCE.load(std::sync::atomic::Ordering::Relaxed) { eprintln!("ANNOUNCE {}", op); } }
 pub struct Step { pub op: Op, pub uv: UvState, pub faults: Vec<Option<u8>>, /// `Some(k)`: poll the future at most k times, then drop it (cancellation)
-    pub cancel_after: Option<usize> }
+    pub cancel_after: Option<usize>,
+    /// k > 0 on a shared lock-wrapper store: another holder keeps the store locked while the ceremony is polled k times, then lets go
+    pub hold_polls: usize }
 
 fn sc(e: StatusCode) -> u8 { e.into() }
 
@@ -251,6 +257,16 @@ fn run_generic<S: Inner + 'static>(ctx: &mut Ctx, prop: &str, w: &World, inner: 
     ctx.line(&format!("au.reset {} {} {} {} {}", prop, w.kind.name(), w.counter_on as u8, w.id_len, w.hm.name()), "");
     for p in &w.preload { ctx.line(&format!("au.load {}", passkey_line(p)), ""); }
     let mut last_id: Option<Vec<u8>> = None;
+    // ids saved in this case, in order; a list entry "@<k>" names the k-th of them (modulo their number)
+    let mut saved_ids: Vec<Vec<u8>> = vec![];
+    let resolve = |l: &Option<Vec<Vec<u8>>>, saved: &Vec<Vec<u8>>| -> Option<Vec<Vec<u8>>> {
+        l.as_ref().map(|v| v.iter().filter_map(|e| {
+            if e.len() >= 2 && e[0] == b'@' && e[1..].iter().all(|c| c.is_ascii_digit()) {
+                let k: usize = std::str::from_utf8(&e[1..]).unwrap().parse().unwrap_or(0);
+                if saved.is_empty() { None } else { Some(saved[k % saved.len()].clone()) }
+            } else { Some(e.clone()) }
+        }).collect())
+    };
     for st in steps {
         *uvst.lock().unwrap() = st.uv;
         auth.store_mut().faults = st.faults.clone();
@@ -259,18 +275,25 @@ fn run_generic<S: Inner + 'static>(ctx: &mut Ctx, prop: &str, w: &World, inner: 
         log.lock().unwrap().clear();
         let cancel = st.cancel_after.map(|k| format!(" cancel={}", k)).unwrap_or_default();
         match &st.op {
-            Op::Make(m) => {
+            Op::Make(m0) => {
+                let mut m1 = m0.clone(); m1.exclude = resolve(&m0.exclude, &saved_ids);
+                let m = &m1;
                 let req = m.real(Some(hmac_input()));
                 announce(&format!("au.make {} {} {} N{}{}", m.enc(), st.uv.enc(), faults_s(&st.faults), cancel, tw));
                 let res = guarded(|| {
                     match st.cancel_after {
                         // the trait is named by path: importing it would change what `auth.make_credential` resolves to
+                        None if st.hold_polls > 0 => {
+                            let guard = auth.store().inner.hold();
+                            let mut fut = Box::pin(auth.make_credential(req));
+                            match poll_n(fut.as_mut(), st.hold_polls) { Some(v) => Some(v), None => { drop(guard); Some(block_on(fut)) } }
+                        }
                         None if via_trait() => Some(block_on(passkey_authenticator::Ctap2Api::make_credential(&mut auth, req))),
                         None => Some(block_on(auth.make_credential(req))),
                         Some(k) => { let mut fut = Box::pin(auth.make_credential(req)); poll_n(fut.as_mut(), k) }
                     }
                 });
-                if let Some(p) = auth.store().last_saved.lock().unwrap().clone() { last_id = Some(p.credential_id.to_vec()); }
+                if let Some(p) = auth.store().last_saved.lock().unwrap().clone() { last_id = Some(p.credential_id.to_vec()); saved_ids.push(p.credential_id.to_vec()); }
                 let draws = auth.store().last_saved.lock().unwrap().clone().map(|p| {
                     let (d, x, y) = key_parts(&p);
                     let (s1, s2) = match &p.extensions.hmac_secret { Some(h) => (hexf(&h.cred_with_uv), opt_hex(h.cred_without_uv.as_deref())), None => ("N".into(), "N".into()) };
@@ -290,12 +313,18 @@ fn run_generic<S: Inner + 'static>(ctx: &mut Ctx, prop: &str, w: &World, inner: 
                 if g1.allow.as_ref().map(|v| v.len() == 1 && v[0] == b"@last") == Some(true) {
                     if let Some(id) = &last_id { g1.allow = Some(vec![id.clone()]); }
                 }
+                g1.allow = resolve(&g1.allow, &saved_ids);
                 let g = &g1;
                 let req = g.real(Some(hmac_input()));
                 announce(&format!("au.get {} {} {}{}{}", g.enc(), st.uv.enc(), faults_s(&st.faults), cancel, tw));
                 let res = guarded(|| {
                     match st.cancel_after {
                         // `&mut auth` coerces to `&auth` if the trait method takes `&self`
+                        None if st.hold_polls > 0 => {
+                            let guard = auth.store().inner.hold();
+                            let mut fut = Box::pin(auth.get_assertion(req));
+                            match poll_n(fut.as_mut(), st.hold_polls) { Some(v) => Some(v), None => { drop(guard); Some(block_on(fut)) } }
+                        }
                         None if via_trait() => Some(block_on(passkey_authenticator::Ctap2Api::get_assertion(&mut auth, req))),
                         None => Some(block_on(auth.get_assertion(req))),
                         Some(k) => { let mut fut = Box::pin(auth.get_assertion(req)); poll_n(fut.as_mut(), k) }
@@ -361,4 +390,4 @@ pub fn simple_make(ctx: &mut Ctx, rp: &str) -> MakeOp {
 pub fn simple_get(ctx: &mut Ctx, rp: &str) -> GetOp {
     GetOp { rp: rp.to_string(), cdh: ctx.rng.bytes(32), allow: None, unk: vec![], ext: None, rk: false, up: true, uv: true, pin: false }
 }
-pub fn step(op: Op) -> Step { Step { op, uv: UvState::ok(), faults: vec![], cancel_after: None } }
+pub fn step(op: Op) -> Step { Step { op, uv: UvState::ok(), faults: vec![], cancel_after: None, hold_polls: 0 } }
